@@ -133,9 +133,24 @@ def main():
         broken.append("no theorem file for " + prop)
 
     # ---- 2. property-specific exploration
+    # watchdog: the implementation is run in-process; a change that makes it loop for ever must end in a report, not in a hang
+    import signal
+    budget = int(os.environ.get("VERIF_BUDGET_S", "1200" if tier == "quick" else "7200"))
+
+    class ImplementationHangs(Exception):
+        pass
+
+    def on_alarm(signum, frame):
+        import traceback as tb
+        where = "".join(tb.format_stack(frame)[-6:])
+        raise ImplementationHangs("no result after %d s; the main thread was at:\n%s" % (budget, where))
+    signal.signal(signal.SIGALRM, on_alarm)
+    signal.alarm(budget)
     try:
         res = mod.run(ctx)
+        signal.alarm(0)
     except Exception:
+        signal.alarm(0)
         tb = traceback.format_exc()
         res = {"evaluations": 0, "distinct_nontrivial": 0, "rule": "", "samples": [],
                "corr": [("harness", False, tb[-3000:])], "violations": [], "dist": {}}
